@@ -16,7 +16,7 @@ This file is also the child program:  python -B c15.py child  < json  > json
 import os, sys, json, hashlib, subprocess, shutil, fcntl, time
 
 ID = 'C15'
-N = {'quick': 150, 'thorough': 3000}
+N = {'quick': 120, 'thorough': 3000}
 SEARCH_N = {'quick': 150, 'thorough': 1500}
 SHARD = 30
 CASE_TIMEOUT = 900.0
